@@ -351,10 +351,11 @@ def shard(seed, n, idx, quick):
 
         # covering programs (hand-written, every run): constants whose names contain one another, used together in
         # constant expressions and array lengths; every native name, long float constants, nested arrays
-        from checks.c04 import alias_chain_program, covering_program, dependency_diamond_program, substring_program
+        from checks.c04 import alias_chain_program, covering_program, dependency_diamond_program, import_diamond_program, substring_program
 
         cov = [substring_program(idx % 2 == 0), alias_chain_program(idx % 4 < 2, idx % 2)] + ([covering_program(idx % 2 == 1, idx % 2)] if idx < 4 else [])
         cov.append(dependency_diamond_program(idx % 4 >= 2, idx % 2))
+        cov.append(import_diamond_program(idx % 2 == 0))
         # every accepted way of calling a definition like a definition of another namespace (core names / user names), and every text of
         # the generator's string vocabulary (line breaks, lines that look like YAML, colons glued to text ...), a quarter per shard
         cov.append(G.build_cross_namespace_cover_program(idx % 4 == 0) if idx % 4 < 2 else G.build_string_cover_program(idx % 4 == 2, part=idx // 4, parts=4))
